@@ -25,6 +25,8 @@ CHECKS = {
              ref="4.18", tech="symbolic execution of the whole pipeline with symbolic identifier spellings; relational claim by path partition (symx + z3)"),
  "C19": dict(text="Two pipeline runs per path class on shared symbolic slots (base file / file with the 42 header, an inserted comment line, an appended conforming function); the second run's diagnostics must be the first's shifted by the inserted lines, nothing added or removed.",
              ref="4.19", tech="two-run symbolic execution of the whole pipeline on shared symbolic slots (symx + z3)"),
+ "C02": dict(text="Violation catalogue: each conforming program instance is changed by one operator (about 55 implemented, each tied to its diagnostic code) at a solver-chosen site, with symbolic identifier spellings; on every path class the real pipeline must report an accepted code on the edited line and the file must be Error.",
+             ref="4.2", tech="symbolic execution of the whole pipeline on structurally edited programs with symbolic slots and solver-chosen edit site (symx + z3)"),
  "C03": dict(text="Boundary exactness (iff) of the five limits through the real pipeline: every measure in [L-3, L+6] in each listed context with symbolic filler text, plus comment tokens with unbounded solver-integer column and line widths injected into the real Registry.run (both directions of the iff are solver queries).",
              ref="4.3", tech="symbolic execution of the pipeline on generated boundary texts + state injection with symbolic-length strings (symx Rope, z3 LIA)"),
  "C04": dict(text="The real main() is executed symbolically with the per-file analysis replaced by a nondeterministic stub (symbolic file class and diagnostic levels): for every sequence of 0..N files of the four classes, both formats, explicit / directory / repeated arguments: one verdict per file, OK iff no Error-level diagnostic, exit 0 iff all OK, no internal exception.",
